@@ -2,7 +2,7 @@
 see selftest/benign/<module>.NOTES.md).  No check of any property may fire on them."""
 ALL = ["C%02d" % i for i in range(1, 21)]
 # behaviour-preserving patches on which a check still raises an alarm (DESIGN 11.6): listed on every run, not failures
-LIMITS = {"w5", "v6", "u3", "q1", "t4", "xv1", "xv7"}
+LIMITS = {"w5", "v6", "u3", "q1", "t4"}
 CASES = [
     {"id": "benign-%s" % m, "props": ALL, "expect": "quiet", "patches": [("selftest/benign/%s.diff" % m, False)],
      "note": "independent benign refactoring of src/%s/mod.rs" % m}
@@ -74,12 +74,12 @@ CASES = [
                     ("C15", "round-9 pair C15-o without its slip: named int_to_i64 / int_to_u64 narrowing helpers"))
 ] + [
     {"id": "benign10-%s" % m[1:], "props": ALL, "expect": "limit" if m in LIMITS else "quiet", "patches": [("selftest/benign/%s.diff" % m, False)], "note": what}
-    for m, what in (("xv1", "EXTRACT FUNCTION across eight modules: decoder arms into helpers that return the collection, a `&mut Vec` out-parameter helper for the KDF tail, check_kty_present: documented limit"),
+    for m, what in (("xv1", "EXTRACT FUNCTION across eight modules: decoder arms into helpers that return the collection, a `&mut Vec` out-parameter helper for the KDF tail, check_kty_present"),
                     ("xv2", "INLINE FUNCTION: context text() matches, two builders' macros expanded by hand, try_as_array_then_convert written out as a loop with an explicit match"),
                     ("xv3", "LOOPS <-> ITERATORS: to_cbor_array as a loop, try_for_each, extend(map(..)), drain(4..).rev()"),
                     ("xv4", "MATCH <-> COMBINATORS: map_or, (len == n).then(..).transpose()?, unwrap_or_default, filter(..).ok_or(..), guards"),
                     ("xv5", "OWNERSHIP: destructured self in encoders and cbor_bstr, as_deref views, Vec -> [T; N] destructuring, drain"),
                     ("xv6", "NAMES AND CONSTANTS: named array lengths, const ranges, type aliases, label constants, reordered items"),
-                    ("xv7", "UNIFORM ERROR HANDLING through a private ensure(cond, err)? helper in every decoder: documented limit"),
+                    ("xv7", "UNIFORM ERROR HANDLING through a private ensure(cond, err)? helper in every decoder"),
                     ("xv8", "API HYGIENE: must_use, const fn, derives, pub(crate) to_cbor_array, # Panics / # Errors docs"))
 ]
